@@ -44,7 +44,7 @@ TECHNIQUE = ("Coq proof (totality incl. fuel, soundness, completeness of the eng
              "and valid_arg_found proved equal to the parser's counter and flag; round 5: value terminators of options and positionals; "
              "level correspondence) + extracted-model/implementation "
              "correspondence")
-LEVEL_TEXT = ("Machine-checked theorems (Coq 8.16, 78 pinned, all closed under the global context) about a function-by-function "
+LEVEL_TEXT = ("Machine-checked theorems (Coq 8.16, 82 pinned, all closed under the global context) about a function-by-function "
               "model of clap_complete::engine::complete: no panic site is reachable and no fuel runs out for any command, argv "
               "and index (build_full's fuel proved sufficient); in state ValueDone every option/subcommand candidate extends the "
               "word and names an option/alias/subcommand of the level reached by the shadow parse; under assert_app's uniqueness "
@@ -95,6 +95,11 @@ LEVEL_TEXT = ("Machine-checked theorems (Coq 8.16, 78 pinned, all closed under t
               "engine's index beside the parser's counter): the engine is in ValueDone at index+1 where the parser stays in PSPos at the counter "
               "(C18_state_agreement_positionals, restated); a subcommand name behind it is read by both iff the level sets "
               "subcommand_precedence_over_arg - such lines are in pline (non-vacuity EngineTerm.MaxLine).  "
+              "Lines with the escape `--` (Complete/EngineEscape.v; beyond the letter of the property): C18_escaped_agreement (engine: is_escaped set, "
+              "index moved by the escaped values exactly as the parser's counter, state Pos; parser: trailing-mode loop, LDone or an error of a flush), "
+              "C18_escaped_accepted (pline line, `--`, words that all find a positional: never UnknownArgument/InvalidSubcommand), "
+              "C18_candidate_accepted_escaped (EVERY candidate offered behind `line -- v1..vk` is accepted; directly behind `--` a positional at the "
+              "counter is needed: C18_escape_no_positional_refuted).  "
               "C18_terminator_before_after: the unrepaired loop stood at the wrong level behind `p --opt a ; sub` / `p a ; sub` and offered an "
               "option the parser rejects as unknown, the repaired one stands where the parser does.  "
               "The model is tied to clap_complete by running the extracted model "
@@ -105,7 +110,7 @@ LEVEL_NOTE = ("Trusted: Coq kernel, extraction, OCaml driver, Rust harness, gene
               "stream `order` compares lists with the real crate); agreement of the shadow parse's "
               "state with the parser's OUTSIDE the classes item18/pitems18/body18 (partially filled multi-valued options on a level with "
               "hyphen-accepting arguments, a terminator that starts with `-` or follows the maximum of the range, hyphen values, require_equals, low-index multiples / allow_missing_positional, "
-              "a line that goes on at the same level behind a full bounded multi-valued positional (the two counters differ by one), flag subcommands, inferred names, the generated help subtree); "
+              "a line that goes on at the same level behind a full bounded multi-valued positional (the two counters differ by one), flag subcommands, inferred names, the generated help subtree, escaped values that name a subcommand, last(true) positionals behind `--`); "
               "acceptance on whole lines by the REAL parser; custom/path completers not modelled.  Finding C18-value-terminator (the engine did "
               "not know Arg::value_terminator; C18_terminator_before_after, corpus accept.value-terminator.cases) is repaired by "
               "docs/pending/engine_value_terminator_fix.diff, which model and proofs follow: until it is committed in /repo the check fails "
